@@ -263,7 +263,7 @@ def run(tier):
     run = core.Run(PROP, tier)
     ex1 = explorer.Explorer(menus.core_menu)
     s1 = ex1.run(1)
-    ex2 = explorer.Explorer(c19_slice if tier == "quick" else menus.core_menu)
+    ex2 = explorer.Explorer(c19_slice)  # thorough: same states, all inputs, every index variant on every entry point
     s2 = ex2.run(2)
     seen = {}
     for s in s1 + s2:
@@ -282,7 +282,7 @@ def run(tier):
     return run.finish(
         exhaustive=True,
         rule="every core-menu state at depth <= 1 and every state at depth <= 2 over "
-        + ("the C19 slice" if tier == "quick" else "the core menu")
+        + "the C19 slice"
         + " x " + ("the empty table, every single row and two two-row tables" if tier == "quick" else "all multisets of <= 2 rows") + " x {Pandas with default / reversed / duplicate / string index and with an extra unused column, Polars eager, Polars lazy} x {eval, transform, ex, frame >> ops, act_on}; each evaluated twice",
     )
 
